@@ -62,6 +62,7 @@ pub struct EnvCensus {
     pub asymmetric_rows: u64,
     pub deep_level_rows: u64,
     pub toggles: u64,
+    pub toggles_after_submission: u64,
     pub steps_while_disabled: u64,
     pub market_rejected: u64,
     pub trades_after_reenable: u64,
@@ -79,7 +80,7 @@ impl EnvCensus {
             sessions, steps, instructions, new_orders, cancels, modifies, empty_batches, full_batches,
             overfull_batches, same_batch_targets, multi_instruction_orders, trades, schedules_by_hint,
             schedules_by_search, search_candidates, submissions_checked, rejected_submissions,
-            rows_compared, asymmetric_rows, deep_level_rows, toggles, steps_while_disabled, market_rejected,
+            rows_compared, asymmetric_rows, deep_level_rows, toggles, toggles_after_submission, steps_while_disabled, market_rejected,
             trades_after_reenable, cross_asset_id_collisions, drains, tie_like_stamps, multi_asset_sessions
         );
         for i in 0..N_ENV_TYPES {
@@ -398,6 +399,22 @@ pub fn session<E: SimEnv>(cfg: &SessionCfg, cs: &mut EnvCensus, out: &mut Sessio
                 });
             if !ok {
                 return efail(step, "step", "pending_queue_differs_from_submissions", format!("queue {:?}", p), &batch);
+            }
+        }
+
+        // ---- a toggle between the submissions and the step: instructions queued under one flag
+        //      are processed under the other ----
+        if rng.chance(cfg.toggle_rate / 2.0) {
+            trading = !trading;
+            env.set_trading(trading);
+            shadow.set_trading(trading);
+            rshadow.set_trading(trading);
+            cs.toggles += 1;
+            cs.toggles_after_submission += 1;
+            if !trading {
+                ever_disabled = true;
+            } else {
+                reenabled = true;
             }
         }
 
